@@ -19,7 +19,7 @@ LEVEL = "exploration"
 TECHNIQUE = "exhaustive enumeration of facade method x command set x every subset of optional keyword arguments x device-provided buffer contents over a recording device; call count, CDB (independent spec decoder), buffer identity and decode-after-execute ordering are checked on every call"
 RULE = ("38 facade methods x every command set whose table offers the command x every subset of the optional keyword arguments (from "
         "inspect.signature of the command class; each supplied argument takes 2 non-default values) x caller buffers of kind bytearray / bytes / memoryview window x 2-3 well-formed device responses chosen to "
-        "match the request and 8 truncated ones (a length field announcing more than was transferred: ~500 bytes at offsets 0-1, 0-3, 4-7, 2-3, FFh at 4, FFFEh and 10000h at 0; all bytes FFh); plus every method x set x 10 exception types raised by the device *after* it took the command (exactly one submission, the same exception object reaches the caller) (VPD page by page code, mode page by page code, PR IN data by service action, disc information by data type, READ CD "
+        "match the request and 8 truncated ones (a length field announcing more than was transferred: ~500 bytes at offsets 0-1, 0-3, 4-7, 2-3, FFh at 4, FFFEh and 10000h at 0; all bytes FFh); plus every method x set x 13 exception types (incl. KeyboardInterrupt, SystemExit, GeneratorExit) raised by the device *after* it took the command (exactly one submission, the same exception object reaches the caller) (VPD page by page code, mode page by page code, PR IN data by service action, disc information by data type, READ CD "
         "sectors by selection bits); READ/WRITE(10,12,16) through the real SCSIDevice / ISCSIDevice and the stand-in bindings with transfers of {1,2,7Fh,80h,7FFFh,8000h,8001h,40000,FFFFh} blocks of 512 bytes (one submission, whole buffers, iSCSI expected transfer length = buffer length); 11 methods (reads and writes) as the first call after a re-plug, plain or with the re-open failing once (EACCES/EMFILE/EBUSY), on a real SCSIDevice: one submission to the node now at the path; two facades over two devices (different sets, block sizes 512 / 4096) used alternately A.m, B.m', A.m for every pair of methods and offering sets: own device, own operation code, own block size, same CDB for A before and after; the 12 script invocations shipped under tools/ and examples/ (inquiry, getlbastatus, mtx status/load/unload against a simulated changer, read16, read_cd, read_disc_information, readcapacity10/16, reportluns, reportpriority) run as a user runs them on both transports: no exception, CDB lengths, printed values agree with the device. after every successful call: decode the returned command again, submit it again, repeat the call on the same facade (same CDB, one submission each, equal result, fresh buffers). Non-trivial = at least one optional argument supplied or a non-SPC command set; distinct = distinct (method, "
         "set, argument dict, response). Every method x set over a real device of either transport twice, with all clocks of the time module advanced by {0,1,299,301,3600,10^7} s in between: one command each, same CDB, the attached set's operation code. Every method x set x transport called 260 times in a row (thorough: 1100; 66000 for six methods): every call one command, CDB and result of the first call. Second attach to the SAME device object after the node was re-plugged with a unit of another type (SG_IO) or after the caller changed dev.opcodes (both transports) x 20 ordered pairs of sets x every method either offers: one INQUIRY, then the opcode of the set of the device now there (or refusal with nothing sent).")
 ASSUMPTIONS = [
@@ -189,7 +189,9 @@ def decoder_kwargs(method, kw):
 
 FAULTS = {"TypeError": TypeError, "ValueError": ValueError, "OSError": OSError, "KeyError": KeyError, "AttributeError": AttributeError,
           "RuntimeError": RuntimeError, "IndexError": IndexError, "NotImplementedError": NotImplementedError, "MemoryError": MemoryError,
-          "StopIteration": StopIteration}
+          "StopIteration": StopIteration,
+          # ... and what is no Exception at all: the user's Ctrl-C, an exit request, a closing generator (they pass through everything)
+          "KeyboardInterrupt": KeyboardInterrupt, "SystemExit": SystemExit, "GeneratorExit": GeneratorExit}
 
 
 def run_fault(case, obs=None):
